@@ -270,6 +270,20 @@ func runC19(c *fw.Case) {
 				return
 			}
 		}
+		// type and size together: every element type at the sizes around its fixed part
+		if kind != 4 && r.IntN(3) == 0 {
+			allTypes := []uint64{desync.CaFormatEntry, desync.CaFormatUser, desync.CaFormatGroup, desync.CaFormatXAttr, desync.CaFormatACLUser, desync.CaFormatACLGroup, desync.CaFormatACLGroupObj, desync.CaFormatACLDefault, desync.CaFormatACLDefaultUser, desync.CaFormatACLDefaultGroup, desync.CaFormatFCaps, desync.CaFormatSELinux, desync.CaFormatSymlink, desync.CaFormatDevice, desync.CaFormatPayload, desync.CaFormatFilename, desync.CaFormatGoodbye, desync.CaFormatIndex, desync.CaFormatTable}
+			t := allTypes[r.IntN(len(allTypes))]
+			for _, v := range []uint64{16, 17, 24, 25, 31, 32, 33, 39, 40, 41, 47, 48, 49, 56, 63, 64, 65, 72} {
+				b := append([]byte(nil), valid...)
+				binary.LittleEndian.PutUint64(b[o:], v)
+				binary.LittleEndian.PutUint64(b[o+8:], t)
+				c.Fault("type-and-size-field")
+				if !run(b, fmt.Sprintf("element at offset %d turned into type %x with size %d", o, t, v), true, 0, 0) {
+					return
+				}
+			}
+		}
 		// the type field: another element type with this size
 		types := []uint64{desync.CaFormatEntry, desync.CaFormatUser, desync.CaFormatXAttr, desync.CaFormatFilename, desync.CaFormatSymlink, desync.CaFormatDevice, desync.CaFormatPayload, desync.CaFormatGoodbye, desync.CaFormatIndex, desync.CaFormatTable, desync.CaFormatFCaps, desync.CaFormatACLUser, desync.CaFormatACLDefault, desync.CaFormatSELinux, desync.CaFormatGroup, desync.CaFormatACLGroup, desync.CaFormatACLGroupObj, 0x1234}
 		if kind != 4 {
